@@ -322,6 +322,11 @@ def run(ctx, rep, model=True):
             # names with a comma in them (a rate between two species, an isomer): string selections are split at blanks only
             p["fields"][ctx.rng.randrange(len(p["fields"]))] = "rate(H2,O2)"
             q["fields"][ctx.rng.randrange(len(q["fields"]))] = "Y(C4H6-1,3)"; rep.count("field-name-with-comma")
+        if i % 5 == 4 and len(p["fields"]) >= 2 and len(q["fields"]) >= 3 and "rate(H2,O2)" not in p["fields"]:
+            # two fields that both inputs carry, next to each other in the second one
+            for spec_ in (p, q):
+                spec_["fields"] = ["x_velocity", "y_velocity"] + [("z_velocity" if f in ("x_velocity", "y_velocity") else f) for f in spec_["fields"][2:]]
+            rep.count("two-adjacent-fields-shared-by-both-inputs")
         forms = selection_forms(ctx.rng, dedup_names(p["fields"]), dedup_names(q["fields"]))
         for j, (v1, v2) in enumerate(forms):
             if ctx.quick and j not in (0, 1 + i % 7):
